@@ -3,13 +3,22 @@
 import json, os, subprocess
 V = os.path.dirname(os.path.dirname(os.path.abspath(__file__)))
 
-CHECKS = {
- "C05": dict(
-    text="TLC exhausts Sys_Frag (code-shaped Defragger + lossy/duplicating/reordering path + fragmenter arithmetic on a boundary grid) against the Prop_C05 monitor; TLC-generated arrival orders are replayed into the real Defragger and every FragUDPMessage/Feed call (real wire codec, real constants) is validated by TLC against the same monitor.",
-    note="Trusted: TLC, the harness' byte comparison of re-parsed fragments, distinct packet IDs among in-flight messages. Model bounds: 3 messages x <=3(4) fragments x <=7(9) deliveries.",
-    tech="TLA+ model checking (TLC) + TLC-generated scenario replay + TLC trace validation of real-code traces", ref="5/C05"),
-}
+import sys, importlib
+sys.path.insert(0, V)
+CHECKS = {}
+for n in range(1, 21):
+    try:
+        mod = importlib.import_module("hv.props.c%02d" % n)
+    except ModuleNotFoundError:
+        continue
+    if getattr(mod, "MANIFEST", None):
+        CHECKS["C%02d" % n] = mod.MANIFEST
+# properties deliberately not claimed (reason), filled in by hand when a check cannot be made sound
 NOT_APPLICABLE = {}
+ALL = [json.loads(l)["id"] for l in open(os.path.join(V, "properties.jsonl"))]
+for pid in ALL:
+    if pid not in CHECKS and pid not in NOT_APPLICABLE:
+        NOT_APPLICABLE[pid] = "check not built yet (work in progress; planned design in DESIGN.md section 5/%s)" % pid
 
 def main():
     hooks = []
